@@ -448,7 +448,7 @@ async fn do_spawn_local(spec: ActorSpec, w: W, idx: usize, sup_cell: Option<Acto
     }
 }
 
-async fn client(sc: Arc<Scenario>, w: W, ops: Vec<COp>, run_tag: String) {
+pub async fn client(sc: Arc<Scenario>, w: W, ops: Vec<COp>, run_tag: String) {
     for op in ops {
         yield_once().await;
         match op {
